@@ -2407,4 +2407,134 @@ theorem payOK_addWriteColumns (g : LGraph) (cols : List Column) (h : PayOK g)
       cases hc'
       exact hok a.1 (List.fst_mem_of_mem_zipIdx ha) t htin
 
+/-- the target `T` owns exactly the columns `colsW`, in this order (`write_columns`), whatever else the holder contains -/
+structure WC (T : DS) (colsW : List Column) (g : LGraph) : Prop where
+  out : g.outEdges (.ds T) = colsW.map (·.key)
+  sorted : ((colsW.map (·.key)).map (fun x => (g.idx (.ds T) x).getD 0)).Pairwise (· ≤ ·)
+  pay : ∀ c ∈ colsW, g.payload c.key = some (.col c)
+
+private theorem outEdges_star' (a : Node) : ∀ ks : List Node,
+    (((ks.map (fun x => (a, x))).filter (·.1 = a)).map (·.2)) = ks
+  | [] => rfl
+  | k :: r => by simp [List.filter_cons, outEdges_star' a r]
+
+theorem WC.ofWInv {B : LGraph} {T : DS} {pre : List Column} {k : Nat} {G : LGraph} (h : WriteCols.WInv B T pre k G) :
+    WC T pre G := by
+  refine ⟨?_, h.sorted, h.pay⟩
+  simp only [outEdges, h.edges]
+  exact outEdges_star' (.ds T) _
+
+theorem WC.writeColumns {T : DS} {colsW : List Column} {g : LGraph} (h : WC T colsW g) (htt : targetTable? g = some T)
+    (hty : ∀ x ∈ colsW.map (·.key), g.ety (.ds T) x = some .hasColumn) : writeColumns g = colsW.map (·.key) := by
+  unfold Holder.writeColumns
+  rw [htt]
+  simp only [h.out]
+  have hfil : (colsW.map (·.key)).filter (fun c => g.ety (.ds T) c == some .hasColumn) = colsW.map (·.key) := by
+    rw [List.filter_eq_self]
+    intro x hx; rw [hty x hx]; rfl
+  have hs : (((colsW.map (·.key)).map (fun c => (c, (g.idx (.ds T) c).getD 0))).map (·.2)).Pairwise (· ≤ ·) := by
+    rw [List.map_map]; exact h.sorted
+  rw [hfil, WriteCols.sortByIdx_sorted _ hs, List.map_map]
+  exact List.map_id' _
+
+theorem mem_nodes_of_payload (g : LGraph) (n : Node) (x : Payload) (h : g.payload n = some x) : n ∈ g.nodes := by
+  apply Decidable.byContradiction
+  intro hn
+  simp [Graph.payload, Graph.hasNode, hn] at h
+
+theorem payload_addEdge_of_mem (g : LGraph) (u v m : Node) (ty : EType) (i : Option Nat) (pu pv : Option Payload)
+    (hm : m ∈ g.nodes) : (g.addEdge u v ty i pu pv).payload m = g.payload m := by
+  rw [Graph.payload_addEdge, Graph.payload_addNode, Graph.payload_addNode,
+    if_pos ((mem_nodes_addNode g u m pu).mpr (Or.inl hm)), if_pos hm]
+
+theorem idx_addEdge_none (g : LGraph) (u v a b : Node) (ty : EType) (pu pv : Option Payload) :
+    (g.addEdge u v ty none pu pv).idx a b = g.idx a b := by
+  rw [Graph.idx_addEdge]
+  by_cases h : a = u ∧ b = v
+  · rw [if_pos h, h.1, h.2]
+  · rw [if_neg h]
+
+theorem idx_setTag (g : LGraph) (n a b : Node) (t : Tag) (x : Bool) (p : Option Payload) :
+    (g.setTag n t x p).idx a b = g.idx a b := by
+  have h1 : (g.setTag n t x p).edges = g.edges := edges_setTag g n t x p
+  have h2 : (g.setTag n t x p).eidx = g.eidx := by simp [Graph.setTag]
+  unfold Graph.idx Graph.hasEdge
+  rw [h1, h2]
+
+theorem outEdges_setTag (g : LGraph) (n a : Node) (t : Tag) (x : Bool) (p : Option Payload) :
+    (g.setTag n t x p).outEdges a = g.outEdges a := by
+  simp only [Graph.outEdges, edges_setTag]
+
+theorem WC.addReadO {T : DS} {colsW : List Column} {g : LGraph} (h : WC T colsW g) (s n a : String)
+    (hne : DS.table s n ≠ T) : WC T colsW (addReadO g ⟨.table s n, some a⟩) := by
+  rw [addReadO_tab]
+  refine ⟨?_, ?_, ?_⟩
+  · rw [outEdges_addEdge, if_neg, outEdges_setTag]; exact h.out
+    rintro ⟨hx, _⟩
+    exact hne (Node.ds.inj hx).symm
+  · have : ∀ x, ((g.setTag (.ds (.table s n)) .read true none).addEdge (.ds (.table s n)) (.str a) .hasAlias).idx (.ds T) x =
+        g.idx (.ds T) x := by
+      intro x; rw [idx_addEdge_none, idx_setTag]
+    simp only [this]; exact h.sorted
+  · intro c hc
+    have hn := mem_nodes_of_payload g _ _ (h.pay c hc)
+    rw [payload_addEdge_of_mem _ _ _ _ _ _ _ _ ((mem_nodes_setTag g _ _ _ _ _).mpr (Or.inl hn)), payload_setTag,
+      Graph.payload_addNode, if_pos hn]
+    exact h.pay c hc
+
+theorem WC.foldl_addReadO {T : DS} {colsW : List Column} : ∀ (l : List DObj) (g : LGraph), WC T colsW g →
+    (∀ o ∈ l, isTabRef o = true) → (∀ o ∈ l, o.d ≠ T) → WC T colsW (l.foldl Holder.addReadO g)
+  | [], g, h, _, _ => h
+  | o :: r, g, h, hl, hne => by
+    obtain ⟨s, n, a, rfl⟩ := tabRef_cases o (hl o (by simp))
+    simp only [List.foldl_cons]
+    exact WC.foldl_addReadO r _ (h.addReadO s n a (hne ⟨.table s n, some a⟩ (by simp))) (fun o ho => hl o (by simp [ho]))
+      (fun o ho => hne o (by simp [ho]))
+
+theorem idx_addLin (g : LGraph) (src tgt : Column) (tp : DS × String) (a b : Node) :
+    (addLin g src tgt tp).idx a b = g.idx a b := by
+  unfold addLin
+  cases src.parent? with
+  | none => simp only [idx_addEdge_none]
+  | some sp => simp only [idx_addEdge_none]
+
+theorem payload_addLin_of_mem (g : LGraph) (src tgt : Column) (tp : DS × String) (m : Node) (hm : m ∈ g.nodes) :
+    (addLin g src tgt tp).payload m = g.payload m := by
+  unfold addLin
+  have h1 : m ∈ (g.addEdge src.key tgt.key .lineage none (some (.col src)) (some (.col tgt))).nodes :=
+    (mem_nodes_addEdge _ _ _ _ _ _ _ _).mpr (Or.inl hm)
+  have h2 : m ∈ ((g.addEdge src.key tgt.key .lineage none (some (.col src)) (some (.col tgt))).addEdge (.ds tp.1) tgt.key
+      .hasColumn none (some (.sub tp.2)) (some (.col tgt))).nodes := (mem_nodes_addEdge _ _ _ _ _ _ _ _).mpr (Or.inl h1)
+  cases src.parent? with
+  | none =>
+    simp only
+    rw [payload_addEdge_of_mem _ _ _ _ _ _ _ _ h1, payload_addEdge_of_mem _ _ _ _ _ _ _ _ hm]
+  | some sp =>
+    simp only
+    rw [payload_addEdge_of_mem _ _ _ _ _ _ _ _ h2, payload_addEdge_of_mem _ _ _ _ _ _ _ _ h1,
+      payload_addEdge_of_mem _ _ _ _ _ _ _ _ hm]
+
+theorem WC.addLin {T : DS} {colsW : List Column} {g : LGraph} (h : WC T colsW g) (src tgt : Column) (tp : DS × String)
+    (hT : tp.1 = T) (htgt : tgt.key ∈ colsW.map (·.key)) (hs : ∀ sp, src.parent? = some sp → sp.1 ≠ T) :
+    WC T colsW (ColumnsExact.addLin g src tgt tp) := by
+  refine ⟨?_, ?_, ?_⟩
+  · rw [outT_addLin g src tgt tp T hT hs, if_pos (by rw [h.out]; exact htgt)]; exact h.out
+  · simp only [idx_addLin]; exact h.sorted
+  · intro c hc
+    rw [payload_addLin_of_mem _ _ _ _ _ (mem_nodes_of_payload g _ _ (h.pay c hc))]
+    exact h.pay c hc
+
+theorem WC.inner {T : DS} {colsW : List Column} (tgt : Column) (tp : DS × String) (htp : tgt.parent? = some tp)
+    (hT : tp.1 = T) (htgt : tgt.key ∈ colsW.map (·.key)) :
+    ∀ (srcs : List Column) (g g' : LGraph), WC T colsW g → (∀ s ∈ srcs, ∀ sp, s.parent? = some sp → sp.1 ≠ T) →
+      srcs.foldlM (fun g s => addColumnLineage g s tgt) g = .ok g' → WC T colsW g'
+  | [], g, g', h, _, hf => by
+    simp only [List.foldlM_nil, pure, Except.pure] at hf
+    cases hf; exact h
+  | s :: r, g, g', h, hs, hf => by
+    simp only [List.foldlM_cons, bind, Except.bind, addColumnLineage_eq g s tgt tp htp] at hf
+    exact WC.inner tgt tp htp hT htgt r _ g' (h.addLin s tgt tp hT htgt (hs s (by simp)))
+      (fun x hx => hs x (by simp [hx])) hf
+
+
 end SqlLineage.ColumnsExact
